@@ -1,6 +1,7 @@
 import Oas3Model.Sem.Sse
 import Oas3Model.Model.EventStream
 import Oas3Model.Proofs.Sse
+import Oas3Model.Proofs.SseWake
 /-
 C20 — the SSE event stream: framing is stable under arriving input, the inner result sequence does
 not depend on how the transport cuts the byte stream into chunks / interleaves `Pending`, and the
@@ -202,5 +203,137 @@ example : outerTrace (R := Nat) List.length
 /-- `no_lost_wakeup` hypothesis is satisfiable -/
 example : (pollNext (R := Nat) List.length [.ev [], .ev [], .pending, .ev ['a']]) =
     (.pending, [.ev ['a']]) := by decide
+
+/-! ## 9. wake-ups: the consumer is a task of an executor, re-polled only after a wake-up
+
+`Step` scripts say for every transport step `Ready(chunk)` / `Pending`, waker kept and woken later /
+`Pending`, waker woken before returning.  `execTrace` is the consumer under executor semantics: it
+stops for good (`Seen.stalled`) at a `Pending` for which no wake-up is due. -/
+
+/-- the bytes a `Step` script delivers -/
+def stepBytes (script : List Step) : List UInt8 := allBytes (script.map Step.toIn)
+
+def seenPending {R : Type} (s : Seen R) : Bool :=
+  match s.toOuter with
+  | some o => isPending o
+  | none => false
+
+/-- ONE call of `poll_next`, from any state: `Pending` is only ever answered with a wake-up due -/
+theorem no_lost_wakeup_poll {R : Type} (dec : List Char → R) (is : List InnerW) :
+    (pollStep dec is).out = .pending →
+      (pollStep dec is).innerPending = true ∨ (pollStep dec is).wokeSelf = true := fun h =>
+  Or.inl (pollStep_pending dec is h).1
+
+/-- where that `Pending` comes from: the inner stream's own `Pending`, reached over skipped
+empty-data events only (executor counterpart of `no_lost_wakeup`) -/
+theorem no_lost_wakeup_shape {R : Type} (dec : List Char → R) (is : List InnerW) :
+    (pollStep dec is).out = .pending →
+      ∃ pre w rest, is = pre ++ .pending w :: rest ∧ (∀ i ∈ pre, i = .ev []) ∧
+        (pollStep dec is).rest = rest ∧ (pollStep dec is).transportWoke = w := fun h =>
+  (pollStep_pending dec is h).2
+
+/-- every schedule, of any length: the executor-driven consumer never stalls (and the fuel of the
+definition never runs out), and every `Pending` it receives was answered with the inner stream
+holding the waker -/
+theorem no_lost_wakeup_run {R : Type} (dec : List Char → R) (script : List Step) :
+    Seen.stalled ∉ execTrace dec (innerRunW {} script) ∧ Seen.fuel ∉ execTrace dec (innerRunW {} script) ∧
+      ∀ ip w, Seen.out .pending ip w ∈ execTrace dec (innerRunW {} script) → ip = true :=
+  ⟨(execTrace_no_stall dec _).1, (execTrace_no_stall dec _).2,
+    fun ip w h => execWith_pending_inner dec _ _ ip w h⟩
+
+/-- `poll_spec` under executor semantics: poll by poll the task sees the spec trace -/
+theorem poll_spec_exec {R : Type} (dec : List Char → R) (is : List InnerW) :
+    (execTrace dec is).map Seen.toOuter = (specTrace dec (is.map InnerW.erase)).map some := by
+  rw [execTrace_outer, poll_spec]
+
+/-- `exactly_once` under executor semantics: for every chunking and every schedule of `Pending`s
+(woken later or at once) the items obtained by a task that is re-polled only after a wake-up are
+those of the byte stream delivered whole, followed by the end of the stream -/
+theorem exactly_once_exec {R : Type} (dec : List Char → R) (script : List Step) :
+    ((execTrace dec (innerRunW {} script)).filter (fun s => !seenPending s)).map Seen.toOuter =
+      (outerTrace dec (innerRun {} [.chunk (stepBytes script)])).map some := by
+  have h1 := execTrace_outer dec (innerRunW {} script)
+  rw [innerRunW_erase] at h1
+  have h2 := exactly_once dec (script.map Step.toIn)
+  let q : Option (OuterOut R) → Bool := fun o => match o with | some o => !isPending o | none => true
+  have e1 : (fun s : Seen R => !seenPending s) = q ∘ Seen.toOuter := by
+    funext s; cases s <;> simp [seenPending, Seen.toOuter, q]
+  have e2 : (q ∘ some) = (fun o : OuterOut R => !isPending o) := by funext o; rfl
+  rw [e1, ← List.filter_map, h1, List.filter_map, e2, h2]
+  rfl
+
+theorem exactly_once_exec_items {R : Type} (dec : List Char → R) (script : List Step) (st' : St)
+    (evs : List (List Char)) (h : feedBytes {} (stepBytes script) = some (st', evs)) :
+    ((execTrace dec (innerRunW {} script)).filter (fun s => !seenPending s)).map Seen.toOuter =
+      (((evs.filter (fun d => !d.isEmpty)).map (fun d => OuterOut.item (dec d))
+        ++ (if st'.bytes.isEmpty then [] else [OuterOut.sseErr]) ++ [OuterOut.done] : List (OuterOut R))).map some := by
+  rw [exactly_once_exec, ← exactly_once_items dec (script.map Step.toIn) st' evs h]
+  rfl
+
+/-! ### why the wake obligation is part of the property: a skip budget
+
+`pollBudget n selfWake` is the loop with "give the executor a chance after `n` skipped heartbeats".
+Returning `Pending` there is only sound together with `wake_by_ref`: the inner stream's last answer
+was `Ready`, nobody holds the waker. -/
+
+/-- `data: 1`, then the three spellings of an empty-data event, then `data: 2`; ONE chunk -/
+def heartbeats : List Step :=
+  [.chunk ([100,97,116,97,58,32,49,10,10] ++ [100,97,116,97,58,10,10] ++ [100,97,116,97,10,10]
+    ++ [100,97,116,97,58,32,10,10] ++ [100,97,116,97,58,32,50,10,10])]
+
+example : innerRunW {} heartbeats = [.ev ['1'], .ev [], .ev [], .ev [], .ev ['2'], .done] := by decide +kernel
+
+/-- today's loop: both events, then the end -/
+theorem budget_reference :
+    execTrace (R := Nat) List.length (innerRunW {} heartbeats) =
+      [.out (.item 1) false false, .out (.item 1) false false, .out .done false false] := by decide +kernel
+
+/-- budget 2 WITHOUT self-wake: the task stalls after the first event; `2` is never delivered and
+the stream never ends although the byte stream has ended -/
+theorem budget_no_selfwake_stalls :
+    execWith (R := Nat) (pollBudget 2 false List.length 0) 7 (innerRunW {} heartbeats) =
+      [.out (.item 1) false false, .stalled] := by decide +kernel
+
+/-- the same budget WITH self-wake is fine: an extra `Pending` (woken), nothing lost -/
+theorem budget_selfwake_ok :
+    execWith (R := Nat) (pollBudget 2 true List.length 0) 7 (innerRunW {} heartbeats) =
+      [.out (.item 1) false false, .out .pending false true, .out (.item 1) false false, .out .done false false] := by
+  decide +kernel
+
+/-- a budget of 32 against 32 heartbeats in one chunk -/
+theorem budget32_no_selfwake_stalls :
+    execWith (R := Nat) (pollBudget 32 false List.length 0) 40
+      (innerRunW {} [.chunk ([100,97,116,97,58,32,49,10,10] ++ (List.replicate 32 [100,97,116,97,58,10,10]).flatten
+        ++ [100,97,116,97,58,32,50,10,10])]) =
+      [.out (.item 1) false false, .stalled] := by decide +kernel
+
+/-- ... while 31 of them, or a transport `Pending` inside the run, hide it -/
+theorem budget32_short_run_hidden :
+    execWith (R := Nat) (pollBudget 32 false List.length 0) 40
+      (innerRunW {} [.chunk ([100,97,116,97,58,32,49,10,10] ++ (List.replicate 31 [100,97,116,97,58,10,10]).flatten
+        ++ [100,97,116,97,58,32,50,10,10])]) =
+      [.out (.item 1) false false, .out (.item 1) false false, .out .done false false] := by decide +kernel
+
+/-- for EVERY budget `n ≥ 1` and every schedule: with self-wake the executor-driven consumer never
+stalls and obtains exactly the items of the byte stream delivered whole, then the end (so the
+property does not forbid yielding to the executor; it forbids doing so silently) -/
+theorem budget_selfwake_exactly_once {R : Type} (dec : List Char → R) (n : Nat) (hn : 0 < n) (script : List Step) :
+    ((execWith (pollBudget n true dec 0) ((innerRunW {} script).length + 2) (innerRunW {} script)).map
+        Seen.toOuter).filter keptOuter =
+      (outerTrace dec (innerRun {} [.chunk (stepBytes script)])).map some := by
+  rw [show (innerRunW {} script).length + 2 = ((innerRunW {} script).length + 1) + 1 from rfl, execWith_succ, execBudget_kept n dec _ 0 _ hn (Nat.lt_succ_self _), innerRunW_erase]
+  have e : (keptOuter ∘ some) = (fun o : OuterOut R => !isPending o) := by
+    funext o; cases o <;> rfl
+  rw [List.filter_map, e, exactly_once dec (script.map Step.toIn)]
+  rfl
+
+/-- non-vacuity of the executor statements: a schedule with both kinds of `Pending` -/
+def wakeScript : List Step :=
+  [.chunk [100,97,116,97,58,32,0xC3], .pendLater, .chunk [0xA9,13], .chunk [10,13], .pendWake,
+   .chunk [10,100,97,116,97,58,10,10], .pendLater, .chunk [100,97,116,97,58,32,50,10,10]]
+
+example : execTrace (R := Nat) List.length (innerRunW {} wakeScript) =
+    [.out .pending true false, .out .pending true true, .out (.item 1) false false, .out .pending true false,
+     .out (.item 1) false false, .out .done false false] := by decide +kernel
 
 end Oas3.Props.C20
